@@ -14,7 +14,7 @@
 
     The wider statement without the bound on the number of levels is false: [ExactFullRefuted]. *)
 From HQ Require Import Base.Prelude Gen.Consts Sched.Model Sched.ProofsOrder Sched.ProofsRows Sched.ProofsCuts
-  Sched.ProofsExact Sched.ExactFullMerge Sched.ExactFullInst Sched.ExactFullBatches Sched.ExactFullQueue Sched.ExactFullRows.
+  Sched.ProofsExact Sched.ExactFullMerge Sched.ExactFullInst Sched.ExactFullBatches Sched.ExactFullQueue Sched.ExactFullRows Sched.Optimal.
 Require Import ZifyBool ZifyN ZifyNat.
 From Coq Require Import Sorting.Sorted.
 Open Scope N_scope.
@@ -153,19 +153,41 @@ Proof.
   - specialize (Hopt s' Hf'). lia.
 Qed.
 
-(** the hypotheses are satisfiable by a non-trivial instance: both classes with interleaved levels,
-    a running task, the worker partly busy *)
+(** the hypotheses are satisfiable by a non-trivial instance: interleaved levels incl. a common one, a
+    running task, a positive gap, the limit of both classes reached; optimality by exhaustive enumeration *)
+Definition ex_q0 : list (N * list N) := [(9, [1; 2]); (5, [3]); (2, [4; 5])].
+Definition ex_q1 : list (N * list N) := [(7, [11]); (5, [12; 13]); (3, [14]); (1, [15])].
+Definition ex_inst : inst := yinst 11 8 [0] 3 2 ex_q0 ex_q1.
+Definition ex_bs : list batch := Eval vm_compute in (match create_task_batches ex_inst with Ok b => b | _ => [] end).
+Definition ex_m : list entry := Eval vm_compute in (match milp_of ex_inst ex_bs with Ok x => x | _ => [] end).
+Definition ex_sol : sol := sol_of [(VX 1 0, 2%Z); (VX 1 1, 1%Z); (VB 1 1, 0%Z); (VB 0 2, 0%Z)].
+Definition ex_ubs : list (var * Z) := [(VX 1 0, 4%Z); (VX 1 1, 4%Z); (VB 1 1, 1%Z); (VB 0 2, 1%Z)].
+Definition ex_dispatch : dispatch := [(1, 1); (11, 1); (2, 1)].
+
 Example exact_class_full_instance :
-  let R := 110000 in let F := 90000 in let a0 := 30000 in let a1 := 20000 in
-  let q0 := [(9, [1; 2]); (5, [3]); (2, [4; 5])] in
-  let q1 := [(7, [11]); (5, [12; 13]); (3, [14]); (1, [15])] in
-  0 < a0 /\ 0 < a1 /\ F <= R /\ R / a0 <= SCHED_MAX_TASK_PER_WORKER /\ R / a1 <= SCHED_MAX_TASK_PER_WORKER
-  /\ (length q0 <= 32)%nat /\ (length q1 <= 32)%nat
-  /\ exists bs m, create_task_batches (yinst R F [1] a0 a1 q0 q1) = Ok bs /\ milp_of (yinst R F [1] a0 a1 q0 q1) bs = Ok m
-                  /\ map (fun b => length (b_cuts b)) bs = [2%nat; 4%nat].
+  0 < 3 /\ 0 < 2 /\ 8 <= 11 /\ 11 / 3 <= SCHED_MAX_TASK_PER_WORKER /\ 11 / 2 <= SCHED_MAX_TASK_PER_WORKER
+  /\ ready_wf ex_q0 /\ NoDup (flat_ids ex_q0) /\ ready_wf ex_q1 /\ NoDup (flat_ids ex_q1)
+  /\ (length ex_q0 <= 32)%nat /\ (length ex_q1 <= 32)%nat
+  /\ create_task_batches ex_inst = Ok ex_bs /\ milp_of ex_inst ex_bs = Ok ex_m /\ feasible ex_m ex_sol = true
+  /\ (forall s', feasible ex_m s' = true -> (objective ex_m s' <= objective ex_m ex_sol)%Z)
+  /\ mapping_ok ex_inst ex_bs ex_sol ex_dispatch = true
+  /\ map (fun b => length (b_cuts b)) ex_bs = [1%nat; 3%nat]
+  /\ gap ex_inst (xworker 11 8 [0]) 0 1 = Ok 1.
 Proof.
-  cbv zeta. repeat split; try (vm_compute; congruence); try (cbn; lia).
-  eexists. eexists. split; [vm_compute; reflexivity|]. split; vm_compute; reflexivity.
+  repeat match goal with |- _ /\ _ => split end; try (vm_compute; congruence); try (cbn; lia); try (vm_compute; reflexivity).
+  - split; repeat constructor; cbn; try lia; try discriminate.
+  - unfold ex_q0, flat_ids. cbn [map concat snd app]. repeat constructor; cbn; intuition congruence.
+  - split; repeat constructor; cbn; try lia; try discriminate.
+  - unfold ex_q1, flat_ids. cbn [map concat snd app]. repeat constructor; cbn; intuition congruence.
+  - apply (optimal_by_enumeration ex_m ex_ubs); vm_compute; reflexivity.
+Qed.
+
+(** ... and the theorem applies to it *)
+Example exact_class_full_instance_no_inversion : inversion ex_inst ex_dispatch = false.
+Proof.
+  destruct exact_class_full_instance as (A1 & A2 & A3 & A4 & A5 & A6 & A7 & A8 & A9 & A10 & A11 & A12 & A13 & A14 & A15 & A16 & _).
+  exact (exact_class_full_no_inversion 11 8 [0] 3 2 ex_q0 ex_q1 ex_bs ex_m ex_sol ex_dispatch
+           A1 A2 A3 A4 A5 A6 A7 A8 A9 A10 A11 A12 A13 A14 A15 A16).
 Qed.
 
 Print Assumptions exact_class_full_no_inversion.
